@@ -1,6 +1,7 @@
 package main
 
 import (
+	"strings"
 	"time"
 
 	"verif/internal/bfs"
@@ -8,6 +9,9 @@ import (
 )
 
 func relayCfg(id, tier string) relay.Config {
+	if strings.HasSuffix(tier, "/tss") {
+		return relayTSSCfg(id, strings.TrimSuffix(tier, "/tss"))
+	}
 	switch id {
 	case "C01":
 		c := relay.Config{Prop: id, Chains: 2, MaxSends: 2, Depth: 11,
@@ -56,13 +60,37 @@ func relayCfg(id, tier string) relay.Config {
 	panic("no relay config for " + id)
 }
 
+// relayTSSCfg: chain A follows chain B through a TSS client (the TSS account's signature replaces proofs), B follows A
+// through a Tendermint client: receives of B->A packets and acknowledgements of A->B packets take the TSS path.
+func relayTSSCfg(id, tier string) relay.Config {
+	switch id {
+	case "C01":
+		c := relay.Config{Prop: id, TSS: true, Chains: 2, MaxSends: 2, Depth: 8,
+			Sends:     []string{"B A erc20 3", "B A native 3", "A B erc20 3", "B A erc20+callrevert 1"},
+			RecvForms: []string{"g1", "g2", "reenc", "dup2", "dupblk"}, AckForms: []string{"g1"}}
+		if tier == "thorough" {
+			c.MaxSends, c.Depth = 3, 10
+		}
+		return c
+	case "C05":
+		c := relay.Config{Prop: id, TSS: true, Chains: 2, MaxSends: 2, Depth: 9,
+			Sends:     []string{"A B erc20 3", "A B erc20+callrevert 1", "B A native 3"},
+			RecvForms: []string{"g1", "g2"}, AckForms: []string{"g1", "g2", "conflict", "early", "dup2"}}
+		if tier == "thorough" {
+			c.MaxSends, c.Depth = 3, 12
+		}
+		return c
+	}
+	panic("no tss relay config for " + id)
+}
+
 func registerRelay(id string, rule string, assume []string, minClasses int) {
 	registerBFS(bfsCheck{
 		id: id,
 		spec: func(tier string) bfs.Spec {
 			cfg := relayCfg(id, tier)
 			d := 170 * time.Second
-			if tier == "thorough" {
+			if strings.HasPrefix(tier, "thorough") {
 				d = 25 * time.Minute
 			}
 			return bfs.Spec{Name: id, New: func() bfs.System { return relay.New(cfg) }, MaxDepth: cfg.Depth, Deadline: d}
@@ -71,8 +99,14 @@ func registerRelay(id string, rule string, assume []string, minClasses int) {
 		assume: assume,
 		bounds: func(tier string) map[string]interface{} {
 			c := relayCfg(id, tier)
-			return map[string]interface{}{"chains": c.Chains, "max_sends": c.MaxSends, "depth": c.Depth, "send_menu": c.Sends, "recv_forms": c.RecvForms, "ack_forms": c.AckForms}
+			m := map[string]interface{}{"chains": c.Chains, "max_sends": c.MaxSends, "depth": c.Depth, "send_menu": c.Sends, "recv_forms": c.RecvForms, "ack_forms": c.AckForms}
+			if id == "C01" || id == "C05" {
+				t := relayCfg(id, tier+"/tss")
+				m["tss_variant"] = map[string]interface{}{"chains": t.Chains, "max_sends": t.MaxSends, "depth": t.Depth, "send_menu": t.Sends, "recv_forms": t.RecvForms, "ack_forms": t.AckForms}
+			}
+			return m
 		},
+		variants: map[string][]string{"C01": {"tss"}, "C05": {"tss"}}[id],
 		minClasses: minClasses,
 		propFilter: id,
 	})
